@@ -23,11 +23,11 @@ func (c19) Runs(tier string) int64 {
 	if tier == "thorough" {
 		return 8000000
 	}
-	return 60000
+	return 200000
 }
 func (c19) Prefix(string, int64) []uint64 { return nil }
 
-var c19weights = InputWeights{Corpus: 2, Valid: 5, ICCDamaged: 2, Damaged: 4, Random: 1, SigJunk: 3, Polyglot: 4, Empty: 1, ShortSOF: 2}
+var c19weights = InputWeights{Corpus: 2, Valid: 5, ICCDamaged: 2, Damaged: 4, Random: 1, SigJunk: 3, Polyglot: 4, Empty: 1, ShortSOF: 2, Soup: 4}
 
 func (c19) Run(t *tape.Tape, st *Stats) *Violation {
 	st.Evals++
